@@ -20,8 +20,21 @@ func Accepts(s string) bool {
 
 // ParseRef is the same recogniser returning the derivation it found. The
 // grammar is unambiguous once identifiers are taken maximally.
-func ParseRef(s string) (Route, bool) {
-	p := &rec{s: s}
+func ParseRef(s string) (Route, bool) { return parseWith(s, false) }
+
+// AcceptsDoc recognises the same grammar over the terminal classes exactly as
+// the README's BNF spells them: <char> without "$", and <any> = <char> plus
+// "[ ] + , ? { } \ |" and the blank inside a regex value - which additionally
+// admits "~ @ ! & ' ; % =" there. Where Accepts and AcceptsDoc disagree the
+// documentation contradicts itself (its second grammar refers to the lexer's
+// classes) and a parser may go either way.
+func AcceptsDoc(s string) bool {
+	_, ok := parseWith(s, true)
+	return ok
+}
+
+func parseWith(s string, doc bool) (Route, bool) {
+	p := &rec{s: s, doc: doc}
 	var r Route
 	for {
 		seg, ok := p.segment()
@@ -62,8 +75,23 @@ func IsRegexChar(c byte) bool {
 }
 
 type rec struct {
-	s string
-	i int
+	s   string
+	i   int
+	doc bool // terminal classes of the README's BNF instead of the lexer's
+}
+
+func (p *rec) identChar(c byte) bool {
+	if p.doc {
+		return c != '$' && IsIdentChar(c)
+	}
+	return IsIdentChar(c)
+}
+
+func (p *rec) regexChar(c byte) bool {
+	if p.doc {
+		return IsRegexChar(c) || (c != '$' && IsIdentChar(c))
+	}
+	return IsRegexChar(c)
 }
 
 func (p *rec) peek() (byte, bool) {
@@ -83,7 +111,7 @@ func (p *rec) eat(c byte) bool {
 
 func (p *rec) ident() (string, bool) {
 	j := p.i
-	for p.i < len(p.s) && IsIdentChar(p.s[p.i]) {
+	for p.i < len(p.s) && p.identChar(p.s[p.i]) {
 		p.i++
 	}
 	return p.s[j:p.i], p.i > j
@@ -167,7 +195,7 @@ func (p *rec) value() (string, bool, bool) {
 		return "", false, false
 	}
 	j := p.i
-	for p.i < len(p.s) && IsRegexChar(p.s[p.i]) {
+	for p.i < len(p.s) && p.regexChar(p.s[p.i]) {
 		p.i++
 	}
 	if p.i == j {
